@@ -768,6 +768,13 @@ fn subjects(ctx: &Ctx) -> Vec<Subject> {
         ];
         v.push(Subject { name: "synthetic-gsub-feature-names-a-lookup-beyond-the-list".into(), data, filter: None, ops });
     }
+    // 4c4. a font whose kerning comes from the legacy kern table (no GPOS): kerning is an argument of shape, so a call with
+    //      kerning = false must leave nothing behind that a later call with kerning = true (or the other way round) can see
+    if let Some((_, data)) = crate::synth::seeds().into_iter().find(|(n, _)| n == "kern0") {
+        let shape = |text: &'static str, kerning: bool| Op::Shape { text, script: tag::LATN, lang: None, feats: FeatSel::Mask(dflt), tuple: None, kerning };
+        let ops = vec![shape("AB", false), shape("AB", true), shape("BA", true), shape("BA", false), Op::HAdvance(1), Op::Tables];
+        v.push(Subject { name: "synthetic-legacy-kern-table-no-gpos".into(), data, filter: None, ops });
+    }
     // 4d. a script with a LangSysRecord tagged 'dflt' that differs from its DefaultLangSys: language None, Some(DFLT),
     //     Some('dflt') and an unknown language share or do not share cache entries - whatever they resolve to, the
     //     answer may not depend on which was asked first
